@@ -20,6 +20,7 @@ from chameleon.namespaces import METAL_NS as METAL
 from chameleon.namespaces import TAL_NS as TAL
 from chameleon.namespaces import XML_NS
 from chameleon.namespaces import XMLNS_NS
+from chameleon.parser import unpack_attributes
 from chameleon.program import ElementProgram
 from chameleon.utils import ImportableMarker
 from chameleon.utils import decode_htmlentities
@@ -297,10 +298,19 @@ class MacroProgram(ElementProgram):
             else:
                 I18N_ATTRIBUTES = i18n.parse_attributes(clause)
 
+            # Resolve the namespace of each remaining attribute on its
+            # own: the entries of ``ns`` do not line up with ``attrs``
+            # when a name is repeated or data attributes were converted
+            ns_keys = [
+                key for attr in attrs
+                for key in unpack_attributes(
+                    [attr], start['ns_map'], start['namespace'], False)
+            ]
+
             # Prepare attributes from TAL language
             prepared = tal.prepare_attributes(
                 attrs, TAL_ATTRIBUTES,
-                I18N_ATTRIBUTES, ns, self.DROP_NS
+                I18N_ATTRIBUTES, ns_keys, self.DROP_NS
             )
 
             # Create attribute nodes
